@@ -662,4 +662,40 @@ deriving Repr, DecidableEq
 
 def c2pDefaults : C2PDefaults := ⟨"p", (1, 100000), (1, 100000000), (1, 1000), true, true, false⟩
 
+/-! ### round 6: the numpy bookkeeping of `supersize` — which offset goes with which row
+
+`test = np.empty(m * n); test.shape = (n, m); test[:] = np.arange(m); x = test.T.flatten()` is `colMajorRange n m`
+(`j` repeated `n` times for `j = 0 … m-1`); `test.shape = (k, len(v)); test[:] = v; v = test.flatten()` is `tileList k v`;
+`new = np.empty((M,) + old.shape); new[:] = old; new.reshape((M * N, …))` takes row `i mod N` of `old`: `tileList M (range N)`. -/
+
+def colMajorRange (rows m : Nat) : List Nat := (List.range m).flatMap fun j => List.replicate rows j
+def tileList {α : Type} (k : Nat) (l : List α) : List α := (List.range k).flatMap fun _ => l
+
+/-- the replica counters `x`, `y`, `z` of `supersize` (one entry per row of the result) and the row of the input each
+    row of the result is copied from, as the broadcasting statements build them. -/
+def offsetsX (N m0 m1 m2 : Nat) : List Nat := tileList m2 (tileList m1 (colMajorRange N m0))
+def offsetsY (N m0 m1 m2 : Nat) : List Nat := tileList m2 (colMajorRange (m0 * N) m1)
+def offsetsZ (N m0 m1 m2 : Nat) : List Nat := colMajorRange (m1 * (m0 * N)) m2
+def copyIndex (N m0 m1 m2 : Nat) : List Nat := tileList (m0 * m1 * m2) (List.range N)
+
+/-- the order of the model (`supersizeAtoms`): replica-major, `r0` fastest, then the atom index. -/
+def replicaOrder (N m0 m1 m2 : Nat) : List (Nat × Nat × Nat × Nat) :=
+  (List.range m2).flatMap fun r2 => (List.range m1).flatMap fun r1 => (List.range m0).flatMap fun r0 =>
+    (List.range N).map fun i => (i, r0, r1, r2)
+
+/-- outcome of one pass of the site loop of `check_setting_basis`: `return b`, the `ValueError`, or on to the next site. -/
+inductive SiteStep where
+  | ret (b : Bool)
+  | raise
+  | next (ty : Option Int)
+deriving Repr, DecidableEq
+
+/-- one pass of the site loop, given the number of atoms found at the site (`np.sum(index)`), the type of the first of
+    them (`ucell.atoms.atype[index][0]`) and the type remembered so far (`atype`, `None` at the first site). -/
+def siteStep (count : Nat) (t : Int) (ty : Option Int) : SiteStep :=
+  if count = 0 then .ret false else if 1 < count then .raise else
+  match ty with
+  | none => .next (some t)
+  | some atype => if atype ≠ t then .ret false else .next (some atype)
+
 end Atomman.C04
